@@ -164,7 +164,11 @@ class Spec:
         acts = ["ping", "settings:2", "settings:0", "settings:dflt", "incr:0", "close:0", "close:d", "rx:mfs:%d" % FRAME_LIMITS[1],
                 "rx:mfs:%d" % FRAME_LIMITS[3], "rx:ping", "rx:settings",
                 # the same received frames while an earlier call's output has not been collected yet: replies are APPENDED
-                "pend+rx:ping", "pend+rx:settings"]
+                "pend+rx:ping", "pend+rx:settings",
+                # our own MAX_FRAME_SIZE raised and acknowledged: it bounds what we RECEIVE, never what we send
+                "settings:mfs", "rx:ack",
+                # a partial read, the buffer discarded, a new frame queued: the next read returns that frame, whole
+                "partial+clear"]
         if st.F != FRAME_LIMITS[0]:
             acts.append("rx:mfs:%d" % FRAME_LIMITS[0])      # the peer lowers its limit again
         if st.nopen < 2:
@@ -238,7 +242,12 @@ class Spec:
                     c.ping(b"PENDING!")          # queued, not collected
                 except Exception:  # noqa: BLE001
                     return Step("pend-not-possible", viols, prune=True)
-            if parts[1] == "mfs":
+            if parts[1] == "ack":
+                o = H.recv(c, pre + wire.settings([], ack=True).serialize())
+                exp_ack = False
+                if o.kind == "ok" and o.frames:
+                    bad("ack-answered", "a SETTINGS ACK was answered with %s" % [f.brief() for f in o.frames])
+            elif parts[1] == "mfs":
                 v = int(parts[2])
                 o = H.recv(c, pre + wire.settings([(wire.S_MAX_FRAME_SIZE, v)]).serialize())
                 if o.kind == "ok":
@@ -287,12 +296,26 @@ class Spec:
             return Step("open", viols)
         # ---- sending calls
         sid = int(parts[1]) if len(parts) > 1 and parts[1].isdigit() else None
-        if parts[0] == "ping":
+        if parts[0] == "partial+clear":
+            try:
+                c.ping(b"DISCARD!")
+            except Exception:  # noqa: BLE001
+                return Step("partial-not-possible", viols, prune=True)
+            first = c.data_to_send(5)
+            c.clear_outbound_data_buffer()
+            o = H.call(c, "ping", b"abcdefgh")
+            if first != wire.ping(b"DISCARD!").serialize()[:5]:
+                bad("partial-read-wrong", "data_to_send(5) returned %r" % first)
+            if o.kind == "ok":
+                expect_single(o, bad, lab, wire.PING, 0, ack=False, opaque=b"abcdefgh")
+        elif parts[0] == "ping":
             o = H.call(c, "ping", b"abcdefgh")
             if o.kind == "ok":
                 expect_single(o, bad, lab, wire.PING, 0, ack=False, opaque=b"abcdefgh")
         elif parts[0] == "settings":
             d = {wire.S_INITIAL_WINDOW_SIZE: 70000, wire.S_MAX_CONCURRENT_STREAMS: 7} if parts[1] == "2" else {}
+            if parts[1] == "mfs":
+                d = {wire.S_MAX_FRAME_SIZE: 65536}
             if parts[1] == "dflt":
                 # values equal to the ones in force (or, after settings:2, back to them): still one frame with both pairs
                 d = {wire.S_INITIAL_WINDOW_SIZE: 65535, wire.S_MAX_FRAME_SIZE: 16384}
